@@ -347,7 +347,11 @@ func (E *Engine) applyContractRest(m *Machine, f *Frame, x *ssa.Call, fn *ssa.Fu
 		m.AssumeT(pev.EvalBool(en.Expr, en.Src))
 	}
 	if c.Trusted {
-		E.Assume("T-"+name, "trusted contract (body not verified): "+name)
+		if len(c.Sweep) > 0 {
+			E.Assume("T-"+name, "trusted contract (functional clauses not verified against the body; the body IS executed for its panic-freedom obligations safe:*): "+name)
+		} else {
+			E.Assume("T-"+name, "trusted contract (body not verified): "+name)
+		}
 	}
 	return tupleOf(res...)
 }
